@@ -133,7 +133,7 @@ def _keys(outcome):
 
 
 def explore(engine, prop, tier, seed, batch=BATCH_DEFAULT, isolate=None, budget_s=None,
-            max_keys=6, selftest=8):
+            max_keys=6, selftest=8, task_timeout=None):
     """Run the whole check.  Returns the process exit code."""
     global _ENGINE
     _ENGINE = engine
@@ -147,7 +147,7 @@ def explore(engine, prop, tier, seed, batch=BATCH_DEFAULT, isolate=None, budget_
     deadline = None if budget_s is None else time.monotonic() + budget_s      # the budget is for exploration, after preparation
     agg = dict(evaluations=0, digests={}, nontrivial=set(), sim_time=0, faults={}, probes={},
                samples=[], violations=[], harness=[], skipped=0)
-    per_task_timeout = max(300, (isolate or 0) * 4)
+    per_task_timeout = task_timeout or max(300, (isolate or 0) * 4)
     for ti, (st, res) in forkpool.pmap(_run_batch, tasks, timeout=per_task_timeout, deadline=deadline):
         if st == 'skipped':
             agg['skipped'] += len(tasks[ti].indices)
